@@ -100,6 +100,10 @@ func (f *ownFam) Apply(st M) M {
 		msg = &rtypes.MsgMakePrimary{Creator: s.S(), Name: gets(st, "n")}
 	case "blocksender":
 		msg = &ntypes.MsgBlockSenders{Creator: s.S(), ToBlock: []string{f.c.Acct(gets(st, "b")).S()}}
+	case "notify":
+		msg = &ntypes.MsgCreateNotification{Creator: s.S(), To: f.c.Acct(gets(st, "to")).S(), Contents: `{"c":"x"}`}
+	case "delnotif":
+		msg = &ntypes.MsgDeleteNotification{Creator: s.S(), From: f.c.Acct(gets(st, "from")).S(), Time: f.ctx.BlockTime().UnixMicro()}
 	case "postfile":
 		msg = &stypes.MsgPostFile{Creator: s.S(), Merkle: f.trees[gets(st, "m")].root, FileSize: 10, MaxProofs: 3, Note: "{}"}
 	case "deletefile":
@@ -170,6 +174,14 @@ func (f *ownFam) Project() M {
 			}
 		}
 	}
+	// inboxes read from the raw store records (not through the listing query): (recipient, sender) of every real notification
+	inbox := []interface{}{}
+	for _, n := range f.c.App.NotificationsKeeper.GetAllNotifications(f.ctx) {
+		if n.Time != 0 && f.c.Known(n.To) && f.c.Known(n.From) { // block markers share the store and decode as Time == 0
+			inbox = append(inbox, []interface{}{f.c.LabelOf(n.To), f.c.LabelOf(n.From)})
+		}
+	}
+	sortRecs(inbox)
 	files := []interface{}{}
 	for _, uf := range sk.GetAllFileByMerkle(f.ctx) {
 		m, ok := f.roots[string(uf.Merkle)]
@@ -179,7 +191,7 @@ func (f *ownFam) Project() M {
 		files = append(files, []interface{}{m, f.c.LabelOf(uf.Owner), uf.Start})
 	}
 	sortRecs(files)
-	return M{"providers": providers, "feeds": feeds, "primary": primary, "blocks": blocks, "files": files, "height": f.ctx.BlockHeight()}
+	return M{"providers": providers, "feeds": feeds, "primary": primary, "blocks": blocks, "files": files, "inbox": inbox, "height": f.ctx.BlockHeight()}
 }
 
 func (f *ownFam) Random(rng *rand.Rand) M {
@@ -187,6 +199,8 @@ func (f *ownFam) Random(rng *rand.Rand) M {
 	val := func() string { return []string{"https://a.d1.com", "https://b.d2.com", "kbX"}[rng.Intn(3)] }
 	files := f.c.App.StorageKeeper.GetAllFileByMerkle(f.ctx)
 	switch r := rng.Intn(100); {
+	case r < 4:
+		return M{"a": "notify", "s": acc(), "to": acc()}
 	case r < 12:
 		return M{"a": "initprovider", "s": acc(), "v": []string{"https://a.d1.com", "https://b.d2.com"}[rng.Intn(2)]}
 	case r < 16:
@@ -207,8 +221,12 @@ func (f *ownFam) Random(rng *rand.Rand) M {
 		return M{"a": "updatefeed", "s": acc(), "n": []string{"f1", "f2"}[rng.Intn(2)], "d": val()}
 	case r < 72:
 		return M{"a": "makeprimary", "s": acc(), "n": []string{"alpha.jkl", "beta.jkl", "spare.jkl", "nobody.jkl"}[rng.Intn(4)]}
-	case r < 78:
+	case r < 75:
 		return M{"a": "blocksender", "s": acc(), "b": acc()}
+	case r < 77:
+		return M{"a": "delnotif", "s": acc(), "from": acc()}
+	case r < 78:
+		return M{"a": "notify", "s": acc(), "to": acc()}
 	case r < 84:
 		return M{"a": "postfile", "s": acc(), "m": []string{"m1", "m2"}[rng.Intn(2)]}
 	case r < 92:
